@@ -14,6 +14,11 @@ Open Scope N_scope.
    queue and exit signal to that connection; only handleWS ever builds one (so HTTP / custom contexts carry none);
    the client-side handler table is built with the client's formatter and alias table *)
 Theorem c16_source_facts :
+  (* the hand-over channel is unbuffered: a request that was handed over is in the loop's hands (registered, or failed) and
+     none can be stranded in a queue when the loop ends; the response channel of a request holds one response, so
+     delivering to it never blocks (closeInFlight under its lock, a response racing the caller's cancellation) *)
+  JRGen.Extracted.requester_chan_makes =
+    ["setupRequestChan: make(chan clientRequest)"; "setupRequestChan: make(chan clientResponse, 1)"; "sendRequest: make(chan clientResponse, 1)"]%string /\
   Extracted.reverse_binding = ["cl.exiting = conn.exiting"; "conn.requests = requests"]%string /\
   Extracted.callsites_reverseClientBuilder = ["NewServer(value)"; "handleWS"]%string /\
   Extracted.handleWS_builder_call = "ctx, err = s.reverseClientBuilder(ctx, wc)"%string /\
